@@ -237,15 +237,23 @@ class PlanJoinTablesQuery:
         binary_ops = []
 
         def _check_node_condition(node, **kwargs):
-            if isinstance(node, BetweenOperation):
-                self.check_node_condition(node)
-
             if isinstance(node, BinaryOperation):
                 binary_ops.append(node.op)
 
-                self.check_node_condition(node)
-
         query_traversal(query.where, _check_node_condition)
+
+        # only top-level conjuncts of WHERE restrict the result on their own:
+        #   a comparison under NOT / OR / inside a function can't be sent to the table
+        def _conjuncts(node):
+            if isinstance(node, BinaryOperation) and node.op == 'and':
+                yield from _conjuncts(node.args[0])
+                yield from _conjuncts(node.args[1])
+            elif node is not None:
+                yield node
+
+        for node in _conjuncts(query.where):
+            if isinstance(node, (BinaryOperation, BetweenOperation)):
+                self.check_node_condition(node)
 
         self.query_context['binary_ops'] = binary_ops
 
